@@ -1,4 +1,5 @@
 import json
+import os
 import tarfile
 import shutil
 import numpy as np
@@ -141,8 +142,19 @@ class DataDir(object):
             self._check_writeprotected(filename=filename, accessmode='w')
         return self._delete_files(filenames=filenames)
 
+    def _isprotected(self, filename):
+        # protection concerns locations, not spellings: 'x', Path('x'),
+        # './x', 'sub/../x' and absolute paths all refer to the same file,
+        # and everything below a protected directory is protected too
+        path = os.path.abspath(os.path.join(self._path, filename))
+        for protectedpath in self._protectedpaths:
+            ppath = os.path.abspath(os.path.join(self._path, protectedpath))
+            if path == ppath or path.startswith(ppath + os.sep):
+                return True
+        return False
+
     def _check_writeprotected(self, filename, accessmode):
-        if accessmode != 'r' and filename in self._protectedpaths:
+        if accessmode != 'r' and self._isprotected(filename):
             raise OSError(f'Cannot modify protected file "{filename}"')
 
     # FIXME overwrite parameter?
